@@ -6,3 +6,11 @@ import Ark.Props.C05
 #print axioms Ark.Props.C05.tableIDs_remove
 #print axioms Ark.Props.C05.tableIDs_remove_mem
 #print axioms Ark.Props.C05.tableIDs_remove_absent
+#print axioms Ark.Props.C05.uncached_walk_selects_exactly
+#print axioms Ark.Props.C05.cached_eq_uncached
+#print axioms Ark.Props.C05.cache_inv_init
+#print axioms Ark.Props.C05.cache_inv_register
+#print axioms Ark.Props.C05.cache_inv_unregister
+#print axioms Ark.Props.C05.cache_inv_table_added
+#print axioms Ark.Props.C05.cache_inv_table_removed
+#print axioms Ark.Props.C05.cache_inv_reset
